@@ -26,7 +26,9 @@ GEOM = "pycaption/geometry.py"
 
 def run(ctx, report):
     folder = ctx.memo("folder", lambda: Folder(ctx.index))
-    report.section("unit conversion", unit_conversion, ctx, report, folder)
+    report.structural_section("unit conversion (symbolic form)", "R-GRID: Size.as_percentage_of folded on the grid of units, values "
+                              "and references (unit_grid)", unit_conversion, ctx, report, folder)
+    report.section("unit conversion on a grid", unit_grid, ctx, report)
     report.section("axis routing", axis_routing, ctx, report)
     report.section("fit_to_screen", fit_to_screen, ctx, report, folder)
     report.section("writer entry", writer_entry, ctx, report, folder)
@@ -166,6 +168,53 @@ def unit_conversion(ctx, report, folder):
     if seen < 5:
         raise AnalysisError(f"only {seen} units analysed (floor 5)")
     report.count("unit_cases", seen)
+
+
+def unit_grid(ctx, report):
+    """Size.as_percentage_of folded concretely: every unit x values up to and beyond the reference (a length may exceed the
+    frame: 800px of 640, 40 of 32 columns) x (width | height | neither | both)"""
+    from ..core.constfold import FoldRaise
+    F = Folder(ctx.index)
+    F.object_classes = "*"
+    fn = ctx.index.get_function(GEOM, "Size.as_percentage_of")
+    report.covered(fn)
+    to_px = {"PIXEL": Fraction(1), "EM": Fraction(G.EM_PX), "PT": Fraction(G.PT_PX[0], G.PT_PX[1])}
+    values = [0, 1, 2.5, 15, 18, 32, 40, 64, 333.333, 640, 800, 1000.5]
+    refs = [(640, None), (None, 360), (1920, None), (None, None), (640, 360)]
+    bad_v, bad_r = [], []
+    n = 0
+    for unit in ("PIXEL", "EM", "PT", "CELL", "PERCENT"):
+        for v in values:
+            for vw, vh in refs:
+                n += 1
+                case = {"length": f"{v} {unit}", "video_width": vw, "video_height": vh}
+                try:
+                    size = F.eval_in("pycaption.geometry", ast.parse(f"Size(v, UnitEnum.{unit})", mode="eval").body, {"v": v})
+                    r = F.call_function(fn, [], {"video_width": vw, "video_height": vh}, self_value=size)
+                except FoldRaise as e:
+                    if unit == "PERCENT" or (vw is None) != (vh is None) or e.exc_name != "RelativizationError":
+                        bad_r.append(dict(case, raises=e.exc_name))
+                    continue
+                except AnalysisError as e:
+                    raise AnalysisError(f"Size.as_percentage_of cannot be folded on {v} {unit}: {e}")
+                got_v, got_u = r.attrs.get("value"), getattr(r.attrs.get("unit"), "name", None)
+                if unit == "PERCENT":
+                    want = Fraction(str(v))
+                elif (vw is None) == (vh is None):
+                    bad_r.append(dict(case, returns=f"{got_v} {got_u}", required="RelativizationError"))
+                    continue
+                elif unit == "CELL":
+                    want = Fraction(str(v)) * 100 / (G.CELL_COLUMNS if vw else G.CELL_ROWS)
+                else:
+                    want = Fraction(str(v)) * to_px[unit] * 100 / (vw or vh)
+                if got_u != "PERCENT" or not isinstance(got_v, (int, float)) or abs(Fraction(got_v) - want) > Fraction(1, 10**9):
+                    bad_v.append(dict(case, returns=f"{got_v} {got_u}", required=f"{float(want)} PERCENT"))
+    report.count("unit_grid_points", n)
+    report.check(not bad_v, "R-GRID", fn, f"Size.as_percentage_of on {n} grid points (px, em, pt, cells, %; lengths below, at and beyond "
+                 "the reference): the result is the percentage of the given dimension the length denotes - 1em = 16px, 1pt = 4/3 px, "
+                 "32 x 15 cells - and a percentage is returned as it is", {"mismatches": bad_v[:3]}, "1")
+    report.check(not bad_r, "R-GRID", fn, "an absolute length raises RelativizationError exactly when neither or both dimensions are "
+                 "given; a percentage never raises", {"mismatches": bad_r[:3]}, "3")
 
 
 ROUTING = {
